@@ -210,6 +210,12 @@ pub struct Program<'p> {
     identity_func: GcView<FuncData<'p>>,
     ext_vars: FHashMap<InternedStr<'p>, GcView<ThunkData<'p>>>,
     native_funcs: FHashMap<InternedStr<'p>, GcView<FuncData<'p>>>,
+    #[cfg(rsjsonnet_verif)]
+    verif_gc_period: usize,
+    #[cfg(rsjsonnet_verif)]
+    verif_gc_calls: usize,
+    #[cfg(rsjsonnet_verif)]
+    verif_gc_runs: usize,
 }
 
 struct Exprs<'p> {
@@ -261,6 +267,12 @@ impl<'p> Program<'p> {
             identity_func,
             ext_vars: FHashMap::default(),
             native_funcs: FHashMap::default(),
+            #[cfg(rsjsonnet_verif)]
+            verif_gc_period: 0,
+            #[cfg(rsjsonnet_verif)]
+            verif_gc_calls: 0,
+            #[cfg(rsjsonnet_verif)]
+            verif_gc_runs: 0,
         };
         this.load_stdlib(stdlib_span_ctx);
         this
@@ -288,16 +300,48 @@ impl<'p> Program<'p> {
 
     /// Runs garbage collection unconditionally.
     pub fn gc(&mut self) {
+        #[cfg(rsjsonnet_verif)]
+        {
+            self.verif_gc_runs += 1;
+        }
         self.gc_ctx.gc();
         self.objs_after_last_gc = self.gc_ctx.num_objects();
     }
 
     /// Runs garbage collection under certain conditions.
     pub fn maybe_gc(&mut self) {
+        #[cfg(rsjsonnet_verif)]
+        if self.verif_gc_period != 0 {
+            // verification hook: collect on every n-th call instead of the heuristic
+            self.verif_gc_calls += 1;
+            if self.verif_gc_calls % self.verif_gc_period == 0 {
+                self.gc();
+            }
+            return;
+        }
         let num_objects = self.gc_ctx.num_objects();
         if num_objects > 1000 && (num_objects / 2) > self.objs_after_last_gc {
             self.gc();
         }
+    }
+
+    /// Verification hook: make `maybe_gc` collect on every `period`-th call
+    /// (0 restores the default heuristic).
+    #[cfg(rsjsonnet_verif)]
+    pub fn verif_set_gc_period(&mut self, period: usize) {
+        self.verif_gc_period = period;
+    }
+
+    /// Verification hook: number of collections run so far.
+    #[cfg(rsjsonnet_verif)]
+    pub fn verif_gc_runs(&self) -> usize {
+        self.verif_gc_runs
+    }
+
+    /// Verification hook: number of objects currently tracked by the collector.
+    #[cfg(rsjsonnet_verif)]
+    pub fn verif_num_objects(&self) -> usize {
+        self.gc_ctx.num_objects()
     }
 
     /// Sets the maximum call stack size.
